@@ -170,7 +170,11 @@ def r09_1_2(run):
                 if late:
                     flagnames = [x for x in flagnames if x != fn_]
             gd = gs.guarded_by(n, lambda t: dotted(t) in flagnames)
-            run.ob('R09.2', su, c, 'attachment decided only when the stream is first seen', any(lab == 'T' for _, lab in gd), slot='wasnew',
+            by_flag = any(lab == 'T' for _, lab in gd)
+            # the same fact without a flag: every path to the call passes the creation of the stream object, and the creation
+            # itself happens only where "id not in self.streams" is established
+            by_flow = any(gs.dominates(i_, n) and established(gs, i_, 'member', lambda t_: dotted(t_.comparators[0]) == 'self.streams', positive=False) for i_ in ins)
+            run.ob('R09.2', su, c, 'attachment decided only when the stream is first seen', by_flag or by_flow, slot='wasnew',
                    message='_maybe_attach reachable for streams that are not new (a second decision per stream)')
     for c in calls:
         for n in gs.nodes_containing(c):
@@ -370,7 +374,13 @@ def r09_6(run):
         if isinstance(v, ast.Name) and single_def(defs, v.id) and single_def(defs, v.id)[0] == 'expr':
             v = single_def(defs, v.id)[1]
         return 'self._circuit_targets.pop' in src(v)
-    ok = bool(rets) and all(isinstance(r.value, ast.Name) and any(from_table(d) for d in defs.get(r.value.id, [])) for r in rets)
+    def entry_elem0(v):
+        # <entry>[0] where <entry> is what was popped from the table (a record read by position instead of unpacked)
+        if isinstance(v, ast.Subscript) and const(v.slice) == 0 and isinstance(v.value, ast.Name):
+            d = single_def(defs, v.value.id)
+            return bool(d) and d[0] == 'expr' and 'self._circuit_targets.pop' in src(d[1])
+        return False
+    ok = bool(rets) and all((isinstance(r.value, ast.Name) and any(from_table(d) for d in defs.get(r.value.id, []))) or entry_elem0(r.value) for r in rets)
     run.ob('R09.6', att, att.node, 'the circuit returned is the one registered for that source address', ok, slot='return-registered', message='attach_stream returns %s' % [src(r.value) for r in rets])
     ep = run.idx.find_method(run.idx.cls('TorCircuitEndpoint', 'circuit'), 'connect')
     ok = any(is_method_call(c, 'add_endpoint') and len(c.args) == 2 and dotted(c.args[0]) == 'self._target_endpoint' and dotted(c.args[1]) == 'self._circuit' for c in calls_in(ep))
